@@ -1,18 +1,23 @@
 #!/bin/bash
 # usage: seed_recheck.sh <seed-name> [property]   -- re-runs the registered check against a stored seed
+# (scratch copy of /repo and of the verif state: /repo itself is never touched)
 set -u
+export GOFLAGS=-mod=mod GOPROXY=off GOSUMDB=off GOTOOLCHAIN=local
 name=$1
 dst=/verif/seeded/$name
 prop=${2:-$(python3 -c "import json;print(json.load(open('$dst/meta.json'))['property'])")}
-if ! git -C /repo diff --quiet || ! git -C /repo diff --cached --quiet; then echo "refusing: /repo has uncommitted changes"; exit 9; fi
-git -C /repo apply $dst/patch.diff || exit 8
-chk=$(/verif/bin/govc check -property $prop 2>&1 | grep -v "^KNOWN-FINDING" | tail -12)
-git -C /repo checkout -- .
+sr=/var/tmp/se-repo-$name; sv=/var/tmp/se-verif-$name
+rm -rf $sr $sv; mkdir -p $sr $sv
+rsync -a --exclude .git /repo/ $sr/
+rsync -a /verif/ledger /verif/drivers /verif/known_findings.json $sv/
+(cd $sr && git apply --unsafe-paths $dst/patch.diff) || { rm -rf $sr $sv; echo "$dst PATCH-DOES-NOT-APPLY"; exit 8; }
+chk=$(/verif/bin/govc check -repo $sr -verif $sv -property $prop 2>&1 | grep -av "^KNOWN-FINDING" | tail -12)
+rm -rf $sr $sv
 python3 - "$dst" "$prop" "$chk" <<'PY'
 import json,sys
 dst,prop,chk=sys.argv[1:]
 m=json.load(open(dst+'/meta.json'))
-m['check_result']={"cmd":"/verif/bin/govc check -property "+prop+" (patch applied to /repo, reverted afterwards)","output":chk,"detected":"VIOLATION" in chk}
+m['check_result']={"cmd":"/verif/bin/govc check -property "+prop+" (patch applied to a scratch copy of /repo)","output":chk,"detected":"VIOLATION" in chk}
 json.dump(m,open(dst+'/meta.json','w'),indent=1)
 print(dst, "detected" if "VIOLATION" in chk else "MISSED")
 PY
